@@ -9,7 +9,7 @@ add("C11","exploration",
  "Trusted: the harness' query model and reference evaluator (internal/mq), Go regexp/strconv; lower-case operator/function names only.",
  "DESIGN.md §2 C11")
 add("C05","exploration",
- "runtime monitoring: seeded table/query/partition generator; the real server aggregator, wire messages and client merge run in worker processes (forced partial transmissions) and as real dmap over SSH against several servers (one or several files per server, results of a few and of thousands of groups); oracle = independent reference evaluator + central-vs-partitioned comparison of the observed CSV results",
+ "runtime monitoring: seeded table/query/partition generator; the real server aggregator, wire messages and client merge run in worker processes (forced partial transmissions) and as real dmap over SSH against several servers (one or several files per server, results of a few and of thousands of groups); a wire tier re-issues the real server messages of a small table through the real serializer with counts and sums scaled to millions and billions and lets the real client side merge them; oracle = independent reference evaluator + central-vs-partitioned comparison of the observed CSV results",
  "Held on the generated (table, query, partition) triples and e2e runs counted in the evidence; partitions up to 4 servers x 3 files x 2 forced transmissions per file in-process, up to 5 servers e2e.",
  "Trusted: reference evaluator (internal/mq) written from the documentation, Go strconv; avg over non-numeric lines compared between runs only; e2e uses one file per server or several files behind one glob (comma lists are subject to the recorded command race c06.cmd-race; csv tables one file per server because the first line seen is the header).",
  "DESIGN.md §2 C05")
@@ -19,12 +19,12 @@ add("C03","exploration",
  "Trusted: Go regexp, the reference model; no-op patterns select every line with and without --invert.",
  "DESIGN.md §2 C03")
 add("C01","exploration",
- "runtime monitoring: seeded byte-class content generator; real dcat binary (serverless and over SSH against in-process servers, plain and REMOTE-record mode, gzip/zstd containers, three MaxLineLength values; consumers that stall at the start or when only the tail of the file is outstanding; reads queued behind a cat limit of 1); oracle = byte equality of stdout with the content after the only permitted transformation; deviations are classified against narrow known-finding predictors",
+ "runtime monitoring: seeded byte-class content generator; real dcat binary (serverless and over SSH against in-process servers, plain and REMOTE-record mode, gzip/zstd containers, three MaxLineLength values; consumers that stall at the start or when only the tail of the file is outstanding; reads queued behind a cat limit of 1; files with unusual names); oracle = byte equality of stdout with the content after the only permitted transformation; deviations are classified against narrow known-finding predictors",
  "Held on the generated files counted in the evidence (byte classes x containers x M x transport cells); files up to 2 MiB (thorough).",
  "Trusted: compress/gzip, DataDog/zstd writer for test inputs; clients must run with --logLevel error; known findings c01.* are recognised by exact prediction only.",
  "DESIGN.md §2 C01")
 add("C12","exploration",
- "runtime monitoring: seeded generator of patterns/options containing the wire format's own delimiters; real dgrep end to end through encoder and server-side decoder (serverless, sample over SSH; overlapping sessions with opposite flags; multi-command sessions whose options must apply to every command; a real client's request bytes captured and replayed to the server in arbitrary pieces); oracle = lines selected by the user's pattern compiled with Go regexp in the harness + context model, and the output mode",
+ "runtime monitoring: seeded generator of patterns/options containing the wire format's own delimiters; real dgrep end to end through encoder and server-side decoder (serverless, sample over SSH; overlapping sessions with opposite flags; multi-command sessions whose options must apply to every command; a real client's request bytes captured and replayed to the server in arbitrary pieces; patterns of 2-60 KB); oracle = lines selected by the user's pattern compiled with Go regexp in the harness + context model, and the output mode",
  "Held on the generated (pattern, flags, options, mode) combinations counted in the evidence.",
  "Trusted: Go regexp; C03's reference context model; patterns without NUL/0xAC.",
  "DESIGN.md §2 C12")
@@ -39,52 +39,52 @@ add("C08","exploration",
  "Trusted: filepath.EvalSymlinks/Abs/Glob, Go regexp; static layouts (no TOCTOU claim).",
  "DESIGN.md §2 C08")
 add("C09","exploration",
- "runtime monitoring: seeded authorized_keys/credential generator (incl. lines of 4-13 KB; servers with the test-mode switch spelled off); real SSH handshakes (x/crypto/ssh client in the harness, chosen source addresses incl. ::1) against in-process dtail servers (one bound to 127.0.0.1, one to all addresses with unresolvable allow-list entries) whose key files are rewritten between attempts; oracle = the statement's acceptance rule; health sessions are fed commands and their byte stream is scanned for file content",
+ "runtime monitoring: seeded authorized_keys/credential generator (incl. lines of 4-13 KB; servers with the test-mode switch spelled off); real SSH handshakes (x/crypto/ssh client in the harness, chosen source addresses incl. ::1; key comments that look like parts of a key line) against in-process dtail servers (one bound to 127.0.0.1, one to all addresses with unresolvable allow-list entries) whose key files are rewritten between attempts; oracle = the statement's acceptance rule; health sessions are fed commands and their byte stream is scanned for file content",
  "Held on the generated key files (incl. multi-revision sequences with preserved/older mtime), the full password x user x source address grid, and the health sessions counted in the evidence.",
  "Trusted: x/crypto/ssh (shared by harness and subject); CRLF and junk lines are outside 'well-formed'.",
  "DESIGN.md §2 C09")
 add("C14","exploration",
- "runtime monitoring: seeded operation histories driven by a harness SSH/TCP client against in-process dtail servers; oracles at quiescent points (probe acceptance, STATS log values vs a sequential model), exact served counts for simultaneous bursts, and porcupine linearizability checking of recorded concurrent connect/close histories against a sequential counter",
+ "runtime monitoring: seeded operation histories driven by a harness SSH/TCP client against in-process dtail servers; oracles at quiescent points (probe acceptance, STATS log values vs a sequential model), exact served counts for simultaneous bursts, a server short of file descriptors for a while (RLIMIT_NOFILE lowered from outside), and porcupine linearizability checking of recorded concurrent connect/close histories against a sequential counter",
  "Held on the operation histories, bursts and porcupine-checked concurrent phases counted in the evidence (MaxConnections 1, 3, 5).",
  "Trusted: x/crypto/ssh, porcupine v1.3.0; 'served' = answers a global request after authentication; client-side closes may linearize any time after their call.",
  "DESIGN.md §2 C14")
 add("C10","exploration",
- "runtime monitoring: grammar-aware hostile-input generator; inputs are applied to fresh real ServerHandlers in crash-isolated worker processes (input logged before application; each process starts cold with simultaneous many-file requests under a 10-rule permission list; mapreduce sessions over compressed files whose stream breaks and with every log format name of the parser factory) and sent over SSH to a real server while a canary session of another user and health logins observe liveness; oracle = process survival, canary stream intact, health answers OK",
+ "runtime monitoring: grammar-aware hostile-input generator; inputs are applied to fresh real ServerHandlers in crash-isolated worker processes (input logged before application; each process starts cold with simultaneous many-file requests under a 10-rule permission list; mapreduce sessions over compressed files whose stream breaks and with every log format name of the parser factory; context options up to 2^63-1) and sent over SSH to a real server while a canary session of another user and health logins observe liveness; oracle = process survival, canary stream intact, health answers OK",
  "Held on the hostile inputs counted in the evidence (command x argument count x fault-class cells); no behavioural expectation beyond survival and an error/close for the offender.",
  "Trusted: the harness SSH client; crash attribution names the culprit and its five predecessors.",
  "DESIGN.md §2 C10")
 add("C13","exploration",
- "runtime monitoring: seeded session histories (open/drain/cancel-while-running/cancel-while-waiting/bursts/bursts of sessions hanging up right after their command) driven by a harness SSH client against in-process servers, plus the server's own continuous jobs and serverless clients (files open in the client process); hook-free observation of the files the server process holds open (/proc/<pid>/fd sampled every 5 ms and at quiescent points) plus an online monitor over the limiter hook trace (acquisitions - releases within [0, limit], every release preceded by its acquisition)",
+ "runtime monitoring: seeded session histories (open/drain/cancel-while-running/cancel-while-waiting/bursts/bursts of sessions hanging up right after their command) driven by a harness SSH client against in-process servers, files that vanish while their read is queued and come back; plus the server's own continuous and scheduled jobs and serverless clients (files open in the client process); hook-free observation of the files the server process holds open (/proc/<pid>/fd sampled every 5 ms and at quiescent points) plus an online monitor over the limiter hook trace (acquisitions - releases within [0, limit], every release preceded by its acquisition)",
  "Held on the histories counted in the evidence (cat limit 1-3, tail limit 1-2, two users); cancellations while waiting actually achieved are counted.",
  "Trusted: /proc fd view; a blocked cat reader keeps its file open; hook call sites srv.lim.* (the /proc observation decides, the trace cross-checks).",
  "DESIGN.md §2 C13")
 add("C02","exploration",
- "runtime monitoring: real dcat/dgrep (serverless and over SSH) with a harness-owned, size-limited stdout pipe read by seeded pacing programs (fast, slow, stalls of 0.15-16 s placed around the queue/pipe/window boundaries), sessions of killed clients before judged ones, files rotated or unlinked during a slow read, grep sessions that select nothing for seconds while a 350 MB read goes on, race-detector pass in the thorough tier; every line carries (file, sequence number, CRC), some are 40-330 KB long; oracle = exactly-once in-order delivery per file, exit status 0, termination by a logical-time hang rule; hook traces attribute losses of multi-command sessions to the recorded finding",
+ "runtime monitoring: real dcat/dgrep (serverless and over SSH) with a harness-owned, size-limited stdout pipe read by seeded pacing programs (fast, slow, stalls of 0.15-16 s placed around the queue/pipe/window boundaries), sessions of killed clients before judged ones, files rotated or unlinked during a slow read, grep sessions that select nothing for seconds while a 350 MB read goes on, servers that answer only seconds after the client started, race-detector pass in the thorough tier; every line carries (file, sequence number, CRC), some are 40-330 KB long; oracle = exactly-once in-order delivery per file, exit status 0, termination by a logical-time hang rule; hook traces attribute losses of multi-command sessions to the recorded finding",
  "Held on the sessions counted in the evidence (pacing x size x files x limit x transport cells, distinct hook-order signatures).",
  "Trusted: /proc-based idle detection; finding c02.cmd-race is only accepted for multi-command sessions with suffix-only loss and a trace showing shutdown before a later command.",
  "DESIGN.md §2 C02")
 add("C07","exploration",
- "runtime monitoring: real dcat/dgrep/dtail against fleets of 2-8 in-process servers with several files each (lines up to just below the line limit, and beyond it with the pieces re-assembled per source), paced stdout; every source line carries its own host, file, number, length and CRC; oracle applied to every output line (complete record, checksum, attribution, per-source order)",
+ "runtime monitoring: real dcat/dgrep/dtail against fleets of 2-8 in-process servers with several files each (lines up to just below the line limit, and beyond it with the pieces re-assembled per source), paced stdout, writers whose writes end in the middle of a line; every source line carries its own host, file, number, length and CRC; oracle applied to every output line (complete record, checksum, attribution, per-source order)",
  "Held on the output lines counted in the evidence (sources up to 8 servers x 5 files; source switches actually observed are counted).",
  "Trusted: CRC32 self-description of the lines; host identity via DTAIL_HOSTNAME_OVERRIDE.",
  "DESIGN.md §2 C07")
 add("C06","exploration",
- "runtime monitoring: conservation oracle over real dmap runs (fleets, long and pipe-fed runs, files queued behind the read limit, servers without any readable file or with files whose reader fails, race-detector pass in the thorough tier) against fleets of 1-32 in-process servers (every line carries weight 1 and its file id; result grouped per file or per shared group), hook-trace monitor of the server-side aggregator's registration/closed/finished order, failpoint-style delays at the hook points, logical-time hang rule; plus an in-process tier merging messages from N concurrent connections into one global group",
+ "runtime monitoring: conservation oracle over real dmap runs (fleets, long and pipe-fed runs, files queued behind the read limit, sessions over more files than the aggregator's queue holds, servers without any readable file or with files whose reader fails, race-detector pass in the thorough tier) against fleets of 1-32 in-process servers (every line carries weight 1 and its file id; result grouped per file or per shared group), hook-trace monitor of the server-side aggregator's registration/closed/finished order, failpoint-style delays at the hook points, logical-time hang rule; plus an in-process tier merging messages from N concurrent connections into one global group",
  "Held on the runs counted in the evidence (fleet sizes, files per server, limits, distinct aggregator event orders observed).",
  "Trusted: hook call sites for attribution only (the CSV decides); c06.cmd-race (a read command received after the aggregator and session had finished) is accepted only with that trace pattern, no excess, and deficits on servers showing it; files of received commands missing from a result are violations.",
  "DESIGN.md §2 C06")
 add("C04","exploration",
- "runtime monitoring: the real tail reader follows real files in worker processes while the harness appends through seeded write() chunkers (incl. consumers that keep up for hundreds of lines and then fall behind by a handful), starting only once the reader's descriptor offset (/proc fdinfo) shows it is positioned; delivered lines (content, running number, transmission percentage) are checked against the appended lines; real dtail (serverless and over SSH) for a sample, and 10 s follows with a continuous writer and a delay at the hook point where the follower sees EOF (housekeeping rounds), and follows interrupted by SIGINT with a slow consumer (order of the delivered lines); other sessions that end early or are killed run on the followed server meanwhile; one client following several files at once",
+ "runtime monitoring: the real tail reader follows real files in worker processes while the harness appends through seeded write() chunkers (incl. consumers that keep up for hundreds of lines and then fall behind by a handful; follows through a symbolic link), starting only once the reader's descriptor offset (/proc fdinfo) shows it is positioned; delivered lines (content, running number, transmission percentage) are checked against the appended lines; real dtail (serverless and over SSH) for a sample, and 10 s follows with a continuous writer and a delay at the hook point where the follower sees EOF (housekeeping rounds), and follows interrupted by SIGINT with a slow consumer (order of the delivered lines); other sessions that end early or are killed run on the followed server meanwhile; one client following several files at once",
  "Held on the follows counted in the evidence (chunkers x sizes x queue regimes; drops actually provoked in regime b are counted).",
  "Trusted: /proc fdinfo offsets; regime a = queue can never be full; regime b without filter; append-only writers.",
  "DESIGN.md §2 C04")
 add("C15","fault_enumeration",
- "runtime monitoring with fault injection: kill points of the real dmap are enumerated (every out.* hook event of a reference run is re-run with SIGKILL delivered exactly there; under strace SIGKILL is injected at the N-th syscall touching the four paths and the position hit is read back; write faults: from the N-th write on every write to those paths fails with ENOSPC); the non-cumulative client of the server's continuous jobs runs in worker processes, is cancelled at various points and watched the same way, after each kill the on-disk state is judged; a watcher re-reads the outfile continuously during un-killed runs; some scenarios put the outfile on another filesystem than the temporary directory",
+ "runtime monitoring with fault injection: kill points of the real dmap are enumerated (every out.* hook event of a reference run is re-run with SIGKILL delivered exactly there; under strace SIGKILL is injected at the N-th syscall touching the four paths and the position hit is read back; write faults: from the N-th write on every write to those paths fails with ENOSPC); the non-cumulative client of the server's continuous jobs runs in worker processes, is cancelled at various points and watched the same way, after each kill the on-disk state is judged; a watcher re-reads the outfile continuously during un-killed runs; some scenarios put the outfile on another filesystem than the temporary directory; earlier runs against an outfile spell their query differently",
  "All listed hook kill points of the quick scenarios are hit (counts in the evidence); syscall-level positions are enumerated for the small scenarios and listed as hit / not hit.",
  "Trusted: strace's path filter and injection; hook call sites out.* (strace tier is hook-free); a kill inside one write(2) is not separately reachable.",
  "DESIGN.md §2 C15")
 add("C17","exploration",
- "runtime monitoring: seeded known_hosts layouts and prompt scripts (answers, no answer, end of input at once or after a non-answer); the real dcat/dtail run against harness-controlled SSH servers with chosen (and changing) host keys, known_hosts edited while the client is connected, known_hosts that cannot be parsed; oracle = per server, shell opened and command bytes received (server-side event log) iff trusted, plus a structural comparison of known_hosts before and after and a prompt-free second run",
+ "runtime monitoring: seeded known_hosts layouts and prompt scripts (answers, no answer, end of input at once or after a non-answer, hosts approved in two separate prompts of one run); the real dcat/dtail run against harness-controlled SSH servers with chosen (and changing) host keys, known_hosts edited while the client is connected, known_hosts that cannot be parsed; oracle = per server, shell opened and command bytes received (server-side event log) iff trusted, plus a structural comparison of known_hosts before and after and a prompt-free second run",
  "Held on the cases counted in the evidence (entry kinds x answers; reconnect cases with a changed host key).",
  "Trusted: x/crypto/ssh/knownhosts for generating test entries (also used by the subject); clients run with --logger none.",
  "DESIGN.md §2 C17")
